@@ -306,7 +306,18 @@ func (tr *trans) atAsserts(in ssa.Instruction, st State) {
 					idx = i
 				}
 			}
-			for i := idx - 1; i >= 0; i-- {
+			// a variable that lives in memory is read from memory (varAt), not from the value of an assignment
+			inMemory := false
+			for _, fb := range tr.fn.Blocks {
+				for _, fi := range fb.Instrs {
+					if al, ok := fi.(*ssa.Alloc); ok && al.Comment == name {
+						if _, done := tr.vals[al]; done {
+							inMemory = true
+						}
+					}
+				}
+			}
+			for i := idx - 1; i >= 0 && !inMemory; i-- {
 				if dr, ok := blk.Instrs[i].(*ssa.DebugRef); ok && !dr.IsAddr {
 					if obj := dr.Object(); obj != nil && obj.Name() == name {
 						if _, done := tr.vals[dr.X]; done {
